@@ -57,14 +57,15 @@ func l2CtxFor(ec elliptic.Curve) *l2Ctx {
 	return &l2Ctx{ec: ec, mods: map[string]*big.Int{"N": ps[0].SK.N, "NT": ps[1].NTilde, "NTA": ps[0].NTilde}}
 }
 
-func cN(name string) *l2Comp        { return &l2Comp{name: name, kind: kNum} }
-func cNM(name, mod string) *l2Comp  { return &l2Comp{name: name, kind: kNum, mod: mod} }
-func cS(name string) *l2Comp        { return &l2Comp{name: name, kind: kScalar} }
-func cMd(name, mod string) *l2Comp  { return &l2Comp{name: name, kind: kModulus, mod: mod} }
-func cCo(name string) *l2Comp       { return &l2Comp{name: name, kind: kCoord} }
-func cRaw(name string) *l2Comp      { return &l2Comp{name: name, kind: kRaw} }
-func cI(name string) *l2Comp        { return &l2Comp{name: name, kind: kInt} }
-func cW(name, mod string) *l2Comp   { return &l2Comp{name: name, kind: kWire, mod: mod} }
+func cN(name string) *l2Comp           { return &l2Comp{name: name, kind: kNum} }
+func cNM(name, mod string) *l2Comp     { return &l2Comp{name: name, kind: kNum, mod: mod} }
+func cS(name string) *l2Comp           { return &l2Comp{name: name, kind: kScalar} }
+func cSd(name string) *l2Comp          { return &l2Comp{name: name, kind: kScalar, inadmQ: true} }
+func cMd(name, mod string) *l2Comp     { return &l2Comp{name: name, kind: kModulus, mod: mod} }
+func cCo(name string) *l2Comp          { return &l2Comp{name: name, kind: kCoord} }
+func cRaw(name string) *l2Comp         { return &l2Comp{name: name, kind: kRaw} }
+func cI(name string) *l2Comp           { return &l2Comp{name: name, kind: kInt} }
+func cW(name, mod string) *l2Comp      { return &l2Comp{name: name, kind: kWire, mod: mod} }
 func cL(name string, k l2Kind) *l2Comp { return &l2Comp{name: name, kind: k} }
 func cPt(name string, ed bool) *l2Comp {
 	return &l2Comp{name: name, kind: kPoint, vals: l2PointVals(ed), ed: ed}
@@ -216,6 +217,7 @@ func tVssReconstruct(ec elliptic.Curve) *l2Target {
 		comps = append(comps, id, cS(fmt.Sprintf("shares[%d].Share", i)).of("shares"))
 	}
 	return &l2Target{name: "vss.Shares.ReConstruct[" + cn + "]", key: "vss.Shares.ReConstruct", pairs: "thorough", comps: comps,
+		inadm: "neither verifier nor decoder: reconstruction from a party's own shares",
 		setup: func() *l2Inst {
 			_, shares := l2VssBase(ec, cn)
 			inst := &l2Inst{ctx: l2CtxFor(ec), expect: "ok"}
@@ -478,7 +480,9 @@ func tFacFromBytes() *l2Target {
 
 func tPaillierProof(tier string) *l2Target {
 	idx := l2Idx(tier, paillier.ProofIters)
-	comps := []*l2Comp{cMd("pkN", ""), cN("k"), cPt("ecdsaPub", false)}
+	pkN := cMd("pkN", "")
+	pkN.bitlen = true
+	comps := []*l2Comp{pkN, cN("k"), cPt("ecdsaPub", false)}
 	for _, i := range idx {
 		comps = append(comps, cN(fmt.Sprintf("pi[%d]", i)))
 	}
@@ -754,6 +758,12 @@ func tBobMid(wc bool) *l2Target {
 		nm = "mta.BobMidWC"
 		comps = append(comps, cPt("B", false))
 	}
+	for _, c := range comps {
+		switch c.name {
+		case "b", "B", "NTildeA", "h1A", "h2A":
+			c.inadm = "argument used only by the proving half of a function that verifies and then proves (the caller's secret, its point, the stored parameters it proves against)"
+		}
+	}
 	return &l2Target{name: nm, key: nm, comps: comps,
 		setup: func() *l2Inst {
 			ps := l2P()
@@ -1028,7 +1038,7 @@ func tPointGob() *l2Target {
 
 func tScalarBaseMult(ec elliptic.Curve) *l2Target {
 	cn := l2CurveName(ec)
-	return &l2Target{name: "crypto.ScalarBaseMult[" + cn + "]", key: "crypto.ScalarBaseMult", comps: []*l2Comp{cS("k")},
+	return &l2Target{name: "crypto.ScalarBaseMult[" + cn + "]", key: "crypto.ScalarBaseMult", comps: []*l2Comp{cSd("k")},
 		setup: func() *l2Inst {
 			k0 := c10.Generic("c06l2/sbm/"+cn, ec.Params().N)
 			return &l2Inst{ctx: l2CtxFor(ec), expect: "ok", prepare: func(m *l2Mut) func() string {
@@ -1040,7 +1050,7 @@ func tScalarBaseMult(ec elliptic.Curve) *l2Target {
 
 func tScalarMult(ec elliptic.Curve) *l2Target {
 	ed, cn := l2IsEd(ec), l2CurveName(ec)
-	return &l2Target{name: "crypto.ECPoint.ScalarMult[" + cn + "]", key: "crypto.ECPoint.ScalarMult", pairs: "thorough", comps: []*l2Comp{cPt("p", ed), cS("k")},
+	return &l2Target{name: "crypto.ECPoint.ScalarMult[" + cn + "]", key: "crypto.ECPoint.ScalarMult", pairs: "thorough", comps: []*l2Comp{cPt("p", ed), cSd("k")},
 		setup: func() *l2Inst {
 			k0 := c10.Generic("c06l2/sm/"+cn, ec.Params().N)
 			p0 := l2GenericPoint(ec, "sm")
@@ -1352,6 +1362,7 @@ func tHashOne() *l2Target {
 
 func tRejectionSample() *l2Target {
 	return &l2Target{name: "common.RejectionSample", key: "common.RejectionSample", comps: []*l2Comp{cMd("q", ""), cN("eHash")},
+		inadm: "pure helper, neither verifier nor decoder",
 		setup: func() *l2Inst {
 			q := tss.S256().Params().N
 			h := new(big.Int).SetBytes(core.Bytes("c06l2/rejection", 32))
